@@ -12,6 +12,9 @@ P = {
  "C20": dict(tie="hand model + correspondence check",
    text="match_pattern (the 4-cursor loop, with fuel) proved equal to the denotational wildcard semantics for all patterns and strings over Unicode scalar values; pattern sets; policy encode/decode round trip for every value outside the known class One(\"*\"); refusal lemmas. Model tied to the code by exhaustive small sweeps, random pairs and mutated JSON documents on every run.",
    note="Trusted: Coq kernel; model of serde's derive/flatten behaviour at the JSON value level (serde_json text layer trusted); harness, generators, the Python IAM-grammar oracle. Out-of-grammar acceptance is refuted by the listed known findings. No axioms."),
+ "C01": dict(tie="translators (route table, Smithy operations, call bodies) + white-box and end-to-end correspondence",
+   text="The route table is re-translated from resolve_route and the operation specifications from data/s3.json on every run. Generic theorems (first-match interpreter): if the table passes the decidable criterion routed_first for an operation then EVERY request view that denotes the operation (any optional members, any non-routing keys/headers) resolves to it; whatever the router answers matches the operation's method/kind/literal keys; requests matching no operation are refused. Per-run obligations (vm_compute on today's tables): the criterion holds for all 96 operations but the known finding, soundness of all 102 rules, and every generated Operation::call body has the shape deserialize; typed hook of the operation; backend method of the operation; serialize.",
+   note="Trusted: Coq kernel; the Python translators (fail closed on unrecognised text; validated by the white-box correspondence against the real resolve_route on every view and by end-to-end requests observed at a recording backend); harness. 15 operations with required XML payload members are observed only up to the deserializer in the end-to-end run. No axioms."),
  "C08": dict(tie="hand model + correspondence check",
    text="AwsChunkedStream rendered as a frame-driven state machine (phases = await points); theorem for every signing function, input and framing: delivered bytes are the data of a chain of chunks each verified against the previous signature from the seed, and a successful end implies a verified zero-length last chunk and the declared total; tampering reduced to a collision of the signing function; framing independence. Tied to the code by running the real stream (hook) and the model (Gallina HMAC-SHA256) on reference-encoded bodies with single faults under many framings.",
    note="Trusted: Coq kernel; hand model of aws_chunked_stream.rs incl. nom's hex_u32/take semantics; Gallina SHA-256/HMAC (validated by the AWS example on every run); harness. Collision resistance of HMAC-SHA256 is a named hypothesis, not assumed in any theorem. The converse (every complete upload is accepted) is checked by correspondence only. No axioms."),
